@@ -75,10 +75,10 @@ func c01Instances(add func(*Instance), thorough bool, inv int) {
 	// "free" group: every element/interval end point is an unconstrained 16-bit value.
 	// "anchored" group: values confined to 8-wide windows at fixed anchors, so that bitmap-chunk word indices stay few.
 	free := []shape{{kA, 1}, {kA, 2}, {kR, 1}, {kR, 2}}
-	anch := []shape{{kA, 21}, {kA, 22}, {kR, 24}, {kB, 0}}
+	anch := []shape{{kA, 21}, {kA, 22}, {kR, 24}, {kR, 26}, {kB, 0}}
 	if thorough {
 		free = []shape{{kA, 1}, {kA, 2}, {kA, 3}, {kR, 1}, {kR, 2}, {kR, 11}, {kR, 12}}
-		anch = []shape{{kA, 21}, {kA, 22}, {kA, 23}, {kR, 24}, {kR, 25}, {kR, 23}, {kB, 0}, {kB, 1}, {kB, 2}}
+		anch = []shape{{kA, 21}, {kA, 22}, {kA, 23}, {kR, 24}, {kR, 25}, {kR, 26}, {kR, 27}, {kR, 23}, {kB, 0}, {kB, 1}, {kB, 2}}
 	}
 	ops := []int{0, 1, 2, 3, 4, 5, 6, 7, 8, 9, 10, 11, 12, 13}
 	for _, op := range ops {
@@ -99,6 +99,9 @@ func c01Instances(add func(*Instance), thorough bool, inv int) {
 					if gi == 1 && op == 7 && a.k == kR && b.k == kA {
 						heavy = true
 					}
+					if gi == 1 && a.k == kR && b.k == kR && a.s != b.s && (op == 2 || op == 6) {
+						heavy = true
+					}
 					in := &Instance{Func: "VerifC01ContainerBinop", Params: P("op", op, "ka", a.k, "sa", a.s, "kb", b.k, "sb", b.s, "L", 2, "inv", inv)}
 					if heavy {
 						in.Tier = 1
@@ -106,6 +109,15 @@ func c01Instances(add func(*Instance), thorough bool, inv int) {
 					add(in)
 				}
 			}
+		}
+	}
+	// the same container object on both sides (x.Op(x)), including arrays with spare capacity
+	for _, op := range ops {
+		if inv == 1 && op >= 10 {
+			continue
+		}
+		for _, a := range []shape{{kA, 2}, {kA, 32}, {kR, 2}, {kB, 0}} {
+			add(&Instance{Func: "VerifC01ContainerBinop", Params: P("op", op, "ka", a.k, "sa", a.s, "kb", -1, "sb", 0, "L", 2, "inv", inv)})
 		}
 	}
 	// layer 3: Bitmap-level drivers (key alignment, chunk hand-over, empties) on tiny chunks
@@ -132,6 +144,8 @@ func c01Instances(add func(*Instance), thorough bool, inv int) {
 		for form := 2; form <= 3; form++ {
 			add(&Instance{Func: "VerifC01BitmapBinop", Params: P("op", op, "form", form, "inv", inv, "L", 2,
 				"ak", 2, "akeys", 0, "acow", 1, "ac0", s0, "ac1", s1)})
+			add(&Instance{Func: "VerifC01BitmapBinop", Params: P("op", op, "form", form, "inv", inv, "L", 2,
+				"ak", 1, "akeys", 0, "acow", 0, "ac0", 32)})
 		}
 	}
 	if inv == 0 {
